@@ -87,15 +87,18 @@ CFG = {
     ],
     "assumptions": [
         "NaN coordinates are outside the property's quantifier: geometries with NaN are judged on Len/Points as usual (C04_len/C04_points do not depend on "
-        "the coordinate type) and on Bounds() only by correspondence with the model run at NV FKey (math.Min: -Inf if either is -Inf, else NaN if either "
-        "is NaN; math.Max dually; comparisons with NaN false) - DIFF, never SPEC; C04_nan_bounds/C04_nan_axis_* say what that is. Box lines with NaN are skipped",
-        "no nil interface value inside a GeometryCollection (nil is not one of the eight types; model and code both fault there, checked as correspondence only)",
+        "the coordinate type) and on Bounds() by the envelope clause read with NaN (SpecNaN.lean IsEnvelopeNaN: an axis without NaN has non-NaN sides, a non-NaN side "
+        "is an attained bound of the non-NaN coordinates of its axis; proved for the model, C04_nan_envelope/C04_nan_exec; SPEC) and then by correspondence with the "
+        "model run at NV FKey (DIFF); a geometry containing a *Bounds with a NaN side is correspondence only (DIFF, never SPEC). Box lines with NaN are skipped",
+        "no nil interface value inside a GeometryCollection (nil is not one of the eight types): there the specification is not applied; what the model does is "
+        "proved (C04_len_fault_iff, C04_bounds_fault_iff, C04_nil_points_prefix/_fault) and compared with the code (Len/Bounds panic, the points drained before the panic)",
         "C04_overlaps, C04_intersection, C04_extend_join, C04_extend_laws_sets hold for ALL boxes (empty, inverted, infinite); "
         "C04_extend_laws (equations between boxes rather than point sets) for canonical boxes (has a point, or is NewBounds()); "
         "C04_bounds (literal reading: Bounds() of a geometry without vertices is the struct NewBounds()): a *Bounds given DIRECTLY as the geometry is canonical "
         "(has a point, or is NewBounds()); for a hand-written inverted box the box itself comes back and the clause is judged on point sets (C04_bounds_sets, "
         "no hypothesis; witness that the literal reading fails there: C04_bounds_noncanon_counterexample). Members of collections are unrestricted",
-        "behaviour of an iterator after more than Len() calls is unspecified and not examined",
+        "behaviour of an iterator after more than Len() calls is unspecified by the property: the first call beyond Len() is proved for the model "
+        "(C04_points_exhausted) and compared with the code (DIFF only); calls after the first panic are not modelled",
     ],
     "rule": "grammar-generated geometries of all eight types with an explicit empty-member production at every level (runs of 1-4 "
             "empty rings / line strings / polygons / collections at the start, middle and end; collections nested to depth 4); "
